@@ -115,3 +115,97 @@ pub fn total_at_speed(f1: usize, speed: f64, nstates: usize) -> (usize, bool) {
 pub fn voiced_mask(lf0: &[Vec<f64>]) -> Vec<bool> {
     lf0.iter().map(|f| f[0] != NODATA).collect()
 }
+
+/// Settings the vocoder is built from.
+#[derive(Clone, Debug)]
+pub struct VocoderParams {
+    pub nmcp: usize,
+    pub nlpf: usize,
+    pub stage: usize,
+    pub log_gain: bool,
+    pub rate: usize,
+    pub alpha: f64,
+    pub beta: f64,
+    pub volume: f64,
+    pub fperiod: usize,
+}
+
+/// Render hooked trajectories through the public Vocoder / SpeechGenerator with the given
+/// settings (the independent second route to the waveform).
+pub fn rerender(p: &VocoderParams, run: &Run) -> Vec<f64> {
+    let voc = jbonsai::vocoder::Vocoder::new(p.nmcp, p.nlpf, p.stage, p.log_gain, p.rate, p.alpha, p.beta, p.volume, p.fperiod);
+    jbonsai::speech::SpeechGenerator::new(p.fperiod, voc, run.spectrum.clone(), run.lf0.clone(), run.lpf.clone()).generate_all()
+}
+
+/// value of `name: ` in a Debug rendering
+pub fn debug_field(dbg: &str, name: &str) -> Option<String> {
+    let i = dbg.find(&format!("{}: ", name))?;
+    let rest = &dbg[i + name.len() + 2..];
+    let end = rest.find([',', ' ', '}']).unwrap_or(rest.len());
+    Some(rest[..end].to_string())
+}
+
+/// vocoder settings as the engine's *getters* report them (stage / log-gain from Debug);
+/// volume must be the untouched default (1.0) for an exact comparison
+pub fn params_from_getters(e: &Engine) -> Option<VocoderParams> {
+    let c = &e.condition;
+    let dbg = format!("{:?}", c);
+    let n = e.voices.global_metadata().num_streams;
+    Some(VocoderParams {
+        nmcp: e.voices.stream_metadata(0).vector_length,
+        nlpf: if n > 2 { e.voices.stream_metadata(2).vector_length } else { 0 },
+        stage: debug_field(&dbg, "stage")?.parse().ok()?,
+        log_gain: debug_field(&dbg, "use_log_gain")?.parse().ok()?,
+        rate: c.get_sampling_frequency(),
+        alpha: c.get_alpha(),
+        beta: c.get_beta(),
+        volume: 1.0,
+        fperiod: c.get_fperiod(),
+    })
+}
+
+pub fn bits_equal(a: &[f64], b: &[f64]) -> bool {
+    a.len() == b.len() && a.iter().zip(b).all(|(x, y)| x.to_bits() == y.to_bits())
+}
+
+/// The trajectories the public building blocks give for the engine's *per-stream* settings:
+/// stream i is generated with gv_weight[i], msd_threshold[i] (and the half tone on stream 1)
+/// from Models::model_stream(i) over the given durations.
+pub fn trajectories_from_public_api(e: &Engine, labels: &[jlabel::Label], durations: &[usize]) -> Vec<Vec<Vec<f64>>> {
+    use jbonsai::mlpg_adjust::MlpgAdjust;
+    use jbonsai::model::Models;
+    let models = Models::new(labels, &e.voices, e.condition.get_interporation_weight());
+    let n = e.voices.global_metadata().num_streams;
+    (0..n)
+        .map(|i| {
+            let mut ms = models.model_stream(i);
+            if i == 1 {
+                ms.stream.apply_additional_half_tone(e.condition.get_additional_half_tone());
+            }
+            MlpgAdjust::new(e.condition.get_gv_weight(i), e.condition.get_msd_threshold(i), ms).create(durations)
+        })
+        .collect()
+}
+
+/// worst deviation between two trajectories (no-data markers must coincide exactly)
+pub fn trajectory_deviation(a: &[Vec<f64>], b: &[Vec<f64>]) -> f64 {
+    if a.len() != b.len() {
+        return f64::INFINITY;
+    }
+    let mut worst = 0.0f64;
+    for (x, y) in a.iter().zip(b) {
+        if x.len() != y.len() {
+            return f64::INFINITY;
+        }
+        for (p, q) in x.iter().zip(y) {
+            if (*p == NODATA) != (*q == NODATA) {
+                return f64::INFINITY;
+            }
+            let d = (p - q).abs() / (1.0 + p.abs());
+            if d > worst || d.is_nan() {
+                worst = if d.is_nan() && p.to_bits() == q.to_bits() { worst } else { d };
+            }
+        }
+    }
+    worst
+}
